@@ -90,16 +90,33 @@ def oracle_check(orc, impl):
 _DEFN = re.compile(r"\(defn (\S+) \(([^)]*)\)")
 
 
+def _span_end(s, i):
+    """index just after the parenthesis that closes the one opening at s[i]"""
+    d = 0
+    for j in range(i, len(s)):
+        if s[j] == "(":
+            d += 1
+        elif s[j] == ")":
+            d -= 1
+            if d == 0:
+                return j + 1
+    return len(s)
+
+
 def is_tail_known_fn(inp):
-    """a defn NAME nested inside the body of a defn of the same NAME whose formals differ in laziness
-    (the self tail call decides laziness from the function most recently defined under the name)"""
-    ds = _DEFN.findall(inp)
-    for i, (n1, p1) in enumerate(ds):
-        for n2, p2 in ds[i + 1:]:
-            if n1 == n2:
+    """a defn NAME NESTED INSIDE THE BODY of a defn of the same NAME whose formals differ in laziness,
+    and a call of NAME (the self tail call jumps into the enclosing function but decides laziness from
+    the function most recently defined under the name in the same compile unit).  A re-definition at
+    the same level (e.g. in a later evaluation) does NOT qualify."""
+    for m in _DEFN.finditer(inp):
+        n1, p1 = m.group(1), m.group(2)
+        end = _span_end(inp, m.start())
+        body = inp[m.end():end]
+        for m2 in _DEFN.finditer(body):
+            if m2.group(1) == n1:
                 f1 = [x.startswith("#") for x in p1.split()]
-                f2 = [x.startswith("#") for x in p2.split()]
-                if f1 != f2 and ("(call (var %s)" % n1) in inp:
+                f2 = [x.startswith("#") for x in m2.group(2).split()]
+                if f1 != f2 and ("(call (var %s)" % n1) in body:
                     return True
     return False
 
